@@ -3,11 +3,11 @@ import os
 import sys
 sys.path.insert(0, os.path.join(os.path.dirname(os.path.abspath(__file__)), '..', 'fileio'))
 import fileio_proofs  # noqa: E402
-PROOFS = [fileio_proofs.dsf_proof(), fileio_proofs.bcf_proof(), fileio_proofs.md5file_proof()]
+PROOFS = [fileio_proofs.dsf_proof(), fileio_proofs.bcf_proof(), fileio_proofs.md5file_proof(), fileio_proofs.loadmem_proof()]
 EXPLANATION = ('Kernel of C13: do_source_file() verified against ALL outcomes of every libc/helper call (each replaced by a contract that may succeed or fail): '
                'in place, the only file opened for writing is <target>.uncrustify; rename() over the target is reachable only after the temporary file was closed '
                'successfully with no write error; a failed backup, open, close, write or rename never leads to a normal return.')
-K = ['K1c\' backup_copy_file: EX_OK => the backup was handed exactly the original bytes AND its stream was closed successfully (the buffered bytes reached the file), or the backup was legitimately skipped',
+K = ['K4 load_mem_file: 0 means every byte of the file (st_size of them) was read into fm.raw - the text that is formatted and the bytes the backup receives - and decoded; a short read or an undecodable text never returns; a file that cannot be opened gives -1; the stream is closed', 'K1c\' backup_copy_file: EX_OK => the backup was handed exactly the original bytes AND its stream was closed successfully (the buffered bytes reached the file), or the backup was legitimately skipped',
      'K1e backup_create_md5_file: a read error while digesting never leaves an md5 behind and exits non-zero', 'K1a target never opened for writing in place (fopen_contract precondition)', 'K1b rename only after successful close and no write error (rename_contract precondition)',
      'K1c target replaced only if the backup was made unless --no-backup (postcondition)', 'K1d normal return => no failure seen (postcondition)']
 G = ['crash points / kill signals between calls are not expressible in a sequential function contract: NOT covered; rename(2) is assumed atomic',
